@@ -874,7 +874,16 @@ def _signature_args(ctx) -> list[Inst]:
             elif 'securicad' in rel:
                 props = ('C18', 'C06')
             construct = f'(vii) sub-entry requested with the declared end types: {stmt_text(n, 60)}'
-            texts = [stmt_text(a) for a in n.args[1:]]
+            texts = []
+            cfg_ = ctx.cfg(f)
+            for a in n.args[1:]:
+                # a local bound once to `x.type` / `assoc.left_field.asset.name` stands for that expression
+                if isinstance(a, ast.Name):
+                    defs = cfg_.reaching(cfg_.owner(n), a.id) if cfg_.owner(n) is not None else []
+                    if len(defs) == 1 and defs[0].kind == 'stmt' and isinstance(defs[0].ast, ast.Assign) \
+                            and len(defs[0].ast.targets) == 1 and isinstance(defs[0].ast.targets[0], ast.Name):
+                        a = defs[0].ast.value
+                texts.append(stmt_text(a))
             declared = all(t.endswith('_field.asset.name') for t in texts) and \
                 {('left' in t) for t in texts} == {True, False}
             instance = any(t.endswith('.type') for t in texts)
